@@ -11,7 +11,8 @@ CLAIMED = {
         "model of helper.go is tied to the code on every run by evaluating the real helpers and the model on the same "
         "inputs (exhaustive small domain, int32 extremes, malformed-annotation stream, random) inside coqc. Controller clause: theorem "
         "C01_controller_creates_only_desired (every pod create of every reconcile, all API states / caches / oracles, names a member of the desired set) over "
-        "the reconcile model, tied by snapshots through the real controller (create calls projected) + monitor.",
+        "the reconcile model, tied by snapshots through the real controller (create calls projected) + monitor (created only at desired ordinals; under Parallel "
+        "every vacant desired ordinal is created by the reconcile, members without a usable ordinal holding none).",
    note="Trusted: Coq kernel + vm_compute, the hand-written model of helper.go incl. the encoding/json reading of []int32 "
         "(validated by the correspondence), harness and driver. Hypothesis: r + |slots| <= MaxInt32.",
    technique="Coq proof over an executable model + differential correspondence with the real helpers and the real controller + monitor",
@@ -131,7 +132,8 @@ CLAIMED = {
         "patches (never deletes) target owned pods that stopped matching; every pod AND every ControllerRevision adoption patch is preceded in the log by a "
         "successful live GET of the set, and CanAdopt says yes only when that GET returned the same UID without deletion timestamp (memoised); planned "
         "deletes target claimed or just-created pods; only own-or-orphan revisions are listed. Differential run (projection: ownership calls) on "
-        "ownership-heavy populations + monitor incl. deep comparison of informer objects before/after (cache mutation).",
+        "ownership-heavy populations + monitor incl. deep comparison of informer objects before/after (cache mutation), release of owned pods that stopped "
+        "matching, and updates of stored revisions keeping their hash and marker labels.",
    note="As C03. 'cached objects are left unmodified' is not expressible in the functional model: decided by the monitor on the implementation only.",
    technique="Coq proof (claim/adoption phases in the program logic; log-order invariant for GET-before-adopt) + differential correspondence + monitor",
    ref="6 C10"),
@@ -149,7 +151,8 @@ CLAIMED = {
         "slots, pause flag, policy, strategy ... resolve state-by-state to the same computation); a listed revision recording the template => no create "
         "(reuse or renumber); the collision loop, for EVERY hash function, only creates and reads and returns the requested template; EqualRevision "
         "implies equal templates. Projected correspondence (revision writes) on revision-heavy populations incl. engineered name collisions + monitor "
-        "(stored update revision mirrors the template; rollback renumbered above all others). The codec-level facts (getPatch depends on "
+        "(stored update revision mirrors the template; rollback renumbered above all others, also when the renumbering write meets a Conflict: "
+        "family rollback_conflict). The codec-level facts (getPatch depends on "
         "spec.template only; ApplyRevision restores it) are checked on the real code over generated PodTemplateSpecs: modelled, not proved.",
    note="As C03. Templates are abstract values in the model; the apimachinery codec and strategic-merge patch are modelled, validated by the `patch` family.",
    technique="Coq proof (revision resolution: independence, no-create, collision loop) + differential correspondence + monitor + codec differential test",
